@@ -7,7 +7,7 @@
 (* Reference encoder, structural walker (C08) and bounded value pools.     *)
 (*                                                                         *)
 (*   label  0 .. 2^20-1                        rd  <<type, octets(6)>>     *)
-(*   lu     [labels, p]      vpn  [label, rd, p]                           *)
+(*   lu     [labels, p]      vpn  [labels, rd, p]                          *)
 (*   evpn   <<1, [rd, esi, tag, label]>>  <<2, [rd, esi, tag, mac, ip, labels]>> *)
 (*          <<3, [rd, tag, ip]>>          <<4, [rd, esi, ip]>>             *)
 (*          esi = 10 octets; ip = <<>> | 4 octets | 16 octets              *)
@@ -25,8 +25,8 @@ EncLu(r, reach) ==
    LET lb == IF reach THEN EncLabels(r.labels) ELSE WithdrawLabel IN
    <<8 * Len(lb) + r.p.l>> \o lb \o Take(r.p.a, POctets(r.p.l))
 EncVpn(r, reach) ==
-   LET lb == IF reach THEN EncLabel(r.label, TRUE) ELSE WithdrawLabel IN
-   <<24 + 64 + r.p.l>> \o lb \o EncRd(r.rd) \o Take(r.p.a, POctets(r.p.l))
+   LET lb == IF reach THEN EncLabels(r.labels) ELSE WithdrawLabel IN
+   <<8 * Len(lb) + 64 + r.p.l>> \o lb \o EncRd(r.rd) \o Take(r.p.a, POctets(r.p.l))
 EncIpLen(ip) == <<8 * Len(ip)>> \o ip
 EncEvpn(e) ==
    LET t == e[1]  v == e[2]
@@ -35,6 +35,25 @@ EncEvpn(e) ==
                  [] t = 3 -> EncRd(v.rd) \o U32hl(v.tag) \o EncIpLen(v.ip)
                  [] t = 4 -> EncRd(v.rd) \o v.esi \o EncIpLen(v.ip)
    IN <<t, Len(body)>> \o body
+\* RFC 7432 7.1 / 7.2: an EVPN label field is 3 octets whose high-order 20 bits are the label; the low-order 4 bits are
+\* not specified (yabgp fills them like a label stack entry, except that it leaves them 0 for label 0).  Two encodings
+\* that differ only there say the same thing: the normal form clears them.
+MaskEvpnRoute(t, v) ==
+   CASE t = 1 /\ Len(v) = 25 -> [v EXCEPT ![25] = (@ \div 16) * 16]
+     [] t = 2 /\ Len(v) >= 33 /\ v[30] \in {0, 32, 128} /\ (Len(v) - 30 - v[30] \div 8) \in {3, 6} ->
+          LET nl == Len(v) - 30 - v[30] \div 8 IN
+          [i \in 1..Len(v) |-> IF i = Len(v) \/ (nl = 6 /\ i = Len(v) - 3) THEN (v[i] \div 16) * 16 ELSE v[i]]
+     [] OTHER -> v
+MaskEvpnList(b) ==
+   IF ~WfTlvs(b, 1, 1) THEN b
+   ELSE LET rs == SplitTlvs(b, 1, 1) IN Flatten([i \in 1..Len(rs) |-> <<rs[i].t, Len(rs[i].v)>> \o MaskEvpnRoute(rs[i].t, rs[i].v)])
+NormMpValue(t, v) ==
+   IF t = 14 /\ Len(v) >= 5 /\ N16(v, 1) = 25 /\ v[3] = 70 /\ Len(v) >= 5 + v[4]
+   THEN Take(v, 5 + v[4]) \o MaskEvpnList(Drop(v, 5 + v[4]))
+   ELSE IF t = 15 /\ Len(v) >= 3 /\ N16(v, 1) = 25 /\ v[3] = 70 THEN Take(v, 3) \o MaskEvpnList(Drop(v, 3))
+   ELSE v
+NormMpUpdate(m) ==
+   LET n == NormUpdate(m) IN [n EXCEPT !.attrs = [i \in 1..Len(n.attrs) |-> <<n.attrs[i][1], n.attrs[i][2], NormMpValue(n.attrs[i][1], n.attrs[i][3])>>]]
 \* flow specification numeric operator octet: e (end of list) a (and) len(2 bits) 0 lt gt eq
 OpBits(op) == CASE op = "=" -> 1 [] op = ">" -> 2 [] op = ">=" -> 3 [] op = "<" -> 4 [] op = "<=" -> 5
 LenCode(n) == CASE n = 1 -> 0 [] n = 2 -> 16 [] n = 4 -> 32
@@ -65,14 +84,21 @@ EncMpUpdate(m) ==
    IN Message(2, U16(0) \o U16(Len(a)) \o a)
 
 (***************************** structural walker (C08) *********************)
-RECURSIVE WfLuList(_, _)
-WfLuList(b, maxp) ==      \* labeled routes: at least one label, length in bits covers labels + prefix
+\* octets of the label stack at the start of a route body: 3-octet entries up to and including the first one with the
+\* bottom-of-stack bit (or the withdrawal label 0x800000); negative when the stack runs past the end of the route
+RECURSIVE StackOct(_)
+StackOct(v) ==
+   IF Len(v) < 3 THEN -100000
+   ELSE IF v[3] % 2 = 1 \/ Take(v, 3) = <<128, 0, 0>> THEN 3 ELSE 3 + StackOct(Drop(v, 3))
+\* labeled / VPN routes: the length octet counts the bits of the label stack, the fixed part (RD) and the prefix
+RECURSIVE WfLabeledList(_, _, _)
+WfLabeledList(b, fixed, maxp) ==
    IF b = <<>> THEN TRUE
-   ELSE /\ b[1] >= 24 /\ b[1] <= 24 * 8 + maxp /\ Len(b) >= 1 + POctets(b[1]) /\ WfLuList(Drop(b, 1 + POctets(b[1])), maxp)
-RECURSIVE WfVpnList(_, _)
-WfVpnList(b, maxp) ==
-   IF b = <<>> THEN TRUE
-   ELSE /\ b[1] >= 88 /\ b[1] <= 88 + maxp /\ Len(b) >= 1 + POctets(b[1]) /\ WfVpnList(Drop(b, 1 + POctets(b[1])), maxp)
+   ELSE /\ Len(b) >= 1 + POctets(b[1])
+        /\ LET so == StackOct(SubSeq(b, 2, 1 + POctets(b[1]))) IN so >= 3 /\ b[1] - 8 * so - fixed >= 0 /\ b[1] - 8 * so - fixed <= maxp
+        /\ WfLabeledList(Drop(b, 1 + POctets(b[1])), fixed, maxp)
+WfLuList(b, maxp) == WfLabeledList(b, 0, maxp)
+WfVpnList(b, maxp) == WfLabeledList(b, 64, maxp)
 IpLenOk(n) == n \in {0, 32, 128}
 WfEvpnRoute(t, v) ==
    CASE t = 1 -> Len(v) = 25
@@ -142,7 +168,8 @@ Rds == {<<0, <<0, 1, 0, 0, 0, 1>>>>, <<0, <<255, 255, 255, 255, 255, 255>>>>, <<
         <<2, <<0, 1, 0, 0, 0, 2>>>>, <<2, <<255, 255, 255, 255, 255, 255>>>>}
 Mp(fam, reach, nh, rs) == [kind |-> "mp", fam |-> fam, reach |-> reach, nh |-> nh, routes |-> rs]
 Lu(ls, p) == [labels |-> ls, p |-> p]
-Vpn(l, rd, p) == [label |-> l, rd |-> rd, p |-> p]
+Vpn(l, rd, p) == [labels |-> <<l>>, rd |-> rd, p |-> p]
+VpnS(ls, rd, p) == [labels |-> ls, rd |-> rd, p |-> p]
 Ipv6Pool ==
    {Mp("ipv6", TRUE, nh, <<p>>) : nh \in {Nh6, Nh6 \o Ll6}, p \in AllLen6}
    \cup {Mp("ipv6", FALSE, <<>>, <<p>>) : p \in AllLen6}
@@ -163,6 +190,9 @@ VpnPool(fam) ==
        all == IF fam = "vpn4" THEN {Pfx(l, <<10, 77, 203, 13>>) : l \in 0..32} ELSE {Pfx6(l, A6a) : l \in {0, 1, 7, 8, 9, 59, 60, 63, 64, 65, 120, 127, 128}}
    IN {Mp(fam, TRUE, nh, <<Vpn(l, <<0, <<0, 100, 0, 0, 0, 100>>>>, p)>>) : l \in Labels, p \in all}
       \cup {Mp(fam, TRUE, nh, <<Vpn(16, rd, ps[i])>>) : rd \in Rds, i \in 1..Len(ps)}
+      \* label stacks of two and three entries, alone and followed by another route
+      \cup {Mp(fam, TRUE, nh, <<VpnS(ls, <<0, <<0, 100, 0, 0, 0, 100>>>>, ps[i])>>) : ls \in {<<16, 17>>, <<1048575, 3>>, <<100, 200, 300>>}, i \in {j \in 1..Len(ps) : ps[j].l <= 96}}
+      \cup {Mp(fam, TRUE, nh, <<VpnS(<<16, 17>>, <<0, <<0, 100, 0, 0, 0, 100>>>>, ps[i]), Vpn(3, <<2, <<0, 1, 0, 0, 0, 2>>>>, ps[j])>>) : i, j \in 1..Len(ps)}
       \cup {Mp(fam, FALSE, <<>>, <<Vpn(16, rd, p)>>) : rd \in {<<0, <<0, 100, 0, 0, 0, 100>>>>, <<1, <<10, 1, 2, 3, 0, 7>>>>}, p \in all}
       \cup {Mp(fam, r, IF r THEN nh ELSE <<>>, <<Vpn(16, <<0, <<0, 100, 0, 0, 0, 100>>>>, ps[i]), Vpn(3, <<2, <<0, 1, 0, 0, 0, 2>>>>, ps[j])>>) : r \in BOOLEAN, i, j \in 1..Len(ps)}
 Mac1 == <<0, 17, 34, 51, 68, 85>>
@@ -177,13 +207,17 @@ EvpnRoutes(lazy) ==
    {<<1, [rd |-> rd, esi |-> e, tag |-> t, label |-> l]>> : rd \in {Rd0, <<0, <<0, 1, 0, 0, 0, 1>>>>}, e \in Esis, t \in {<<0, 0>>, <<0, 100>>, <<65535, 65535>>}, l \in {10, 1048575}}
    \cup {<<2, [rd |-> Rd0, esi |-> e, tag |-> t, mac |-> Mac1, ip |-> ip, labels |-> ls]>> :
             e \in {Zeros(10), <<3>> \o Mac1 \o <<1, 0, 0>>, <<1>> \o Mac1 \o <<0, 7, 0>>}, t \in {<<0, 108>>, <<65535, 65535>>}, ip \in Ips46, ls \in {<<16>>, <<16, 17>>, <<1048575>>}}
+   \* label 0 (explicit null) alone and as the last label of a stack
+   \cup {<<1, [rd |-> Rd0, esi |-> Zeros(10), tag |-> <<0, 100>>, label |-> 0]>>}
+   \cup {<<2, [rd |-> Rd0, esi |-> Zeros(10), tag |-> <<0, 108>>, mac |-> Mac1, ip |-> ip, labels |-> ls]>> : ip \in Ips46, ls \in {<<0>>, <<16, 0>>, <<0, 0>>}}
    \cup {<<3, [rd |-> rd, tag |-> t, ip |-> ip]>> : rd \in {Rd0, <<2, <<0, 1, 0, 0, 0, 2>>>>}, t \in {<<0, 0>>, <<0, 100>>}, ip \in Ips46 \ {<<>>}}
    \cup {<<4, [rd |-> Rd0, esi |-> e, ip |-> ip]>> : e \in Esis, ip \in Ips46 \ {<<>>}}
 EvpnPool ==
    {Mp("evpn", TRUE, Nh4, <<e>>) : e \in EvpnRoutes(0)}
    \cup {Mp("evpn", FALSE, <<>>, <<e>>) : e \in {x \in EvpnRoutes(0) : x[1] \in {3, 4}}}
    \cup {Mp("evpn", TRUE, Nh4, <<a, b>>) : a, b \in {x \in EvpnRoutes(0) : (x[1] = 1 /\ x[2].esi = Zeros(10) /\ x[2].tag = <<0, 100>> /\ x[2].label = 10 /\ x[2].rd = Rd0)
-                                                    \/ (x[1] = 2 /\ x[2].esi = Zeros(10) /\ x[2].tag = <<0, 108>> /\ x[2].labels = <<16>>)
+                                                    \/ (x[1] = 1 /\ x[2].label = 0)
+                                                    \/ (x[1] = 2 /\ x[2].esi = Zeros(10) /\ x[2].tag = <<0, 108>> /\ x[2].labels \in {<<16>>, <<0>>, <<16, 0>>} /\ x[2].ip # Nh6)
                                                     \/ (x[1] = 3 /\ x[2].rd = Rd0 /\ x[2].tag = <<0, 100>>)
                                                     \/ (x[1] = 4 /\ x[2].esi = Zeros(10))}}
 FsOp(op, n, v) == [op |-> op, len |-> n, v |-> v]
